@@ -125,3 +125,298 @@ Proof.
         -- replace (- 2 ^ (w - 1) <=? v) with false by lia. reflexivity.
         -- replace (- 2 ^ (w - 1) <=? v) with false by lia. reflexivity.
 Qed.
+
+(* ---------- _convert_int with bitwidth=None: the minimal width ---------- *)
+Definition is_min_width (v w : Z) (s : bool) : Prop :=
+  representable v w s /\ forall w', representable v w' s -> w <= w'.
+
+Lemma convert_int_none_nonneg v s : 0 <= v ->
+  exists w, convert_int v None s = Ok (v, w) /\ v = v mod 2 ^ w /\ is_min_width v w s.
+Proof.
+  intros Hv. unfold convert_int, len_bin_signed.
+  replace (v >=? 0) with true by lia. replace (v <? 0) with false by lia.
+  replace (len_bin v + 0 + 2 - 2) with (len_bin v) by lia.
+  pose proof (len_bin_le v (len_bin v) Hv) as [HL _]. destruct (HL ltac:(lia)) as [H1 H2].
+  destruct s; cbn [andb].
+  - destruct (negb (v =? 0)) eqn:E0.
+    + exists (len_bin v + 1). split; [reflexivity|].
+      assert (Hr : representable v (len_bin v + 1) true).
+      { unfold representable. split; [lia|]. replace (len_bin v + 1 - 1) with (len_bin v) by lia. lia. }
+      split.
+      * symmetry. apply Z.mod_small. rewrite (pow2_half (len_bin v + 1)) by lia.
+        replace (len_bin v + 1 - 1) with (len_bin v) by lia. lia.
+      * split; [exact Hr|]. intros w' [Hw' [_ Hlt]].
+        destruct (Z.eq_dec w' 1) as [->|Hne].
+        -- simpl in Hlt. lia.
+        -- assert (len_bin v <= w' - 1) by (apply len_bin_le; [assumption|split; lia]). lia.
+    + assert (v = 0) by lia. subst v. exists 1. split; [reflexivity|]. split; [reflexivity|].
+      split; [unfold representable; simpl; lia|]. intros w' [Hw' _]. lia.
+  - exists (len_bin v). split; [reflexivity|]. split; [symmetry; apply Z.mod_small; lia|].
+    split.
+    + unfold representable. replace (0 <=? v) with true by lia. split; assumption.
+    + intros w' [Hw' Hr]. replace (0 <=? v) with true in Hr by lia. apply len_bin_le; [assumption|split; assumption].
+Qed.
+
+Lemma convert_int_none_neg_signed v : v < 0 ->
+  exists w, convert_int v None true = Ok (v mod 2 ^ w, w) /\ is_min_width v w true.
+Proof.
+  intros Hv. unfold convert_int, len_bin_signed. change (Z.opp 1) with (-1).
+  replace (v >=? 0) with false by lia. cbn [negb andb].
+  destruct (v =? -1) eqn:E1.
+  - assert (v = -1) by lia. subst v. exists 1. split; [reflexivity|].
+    split; [unfold representable; simpl; lia|]. intros w' [Hw' _]. lia.
+  - assert (Hn : 0 < Z.lnot v) by (unfold Z.lnot; lia).
+    replace (Z.lnot v <? 0) with false by lia.
+    set (L := len_bin (Z.lnot v)).
+    replace (L + 0 + 2 - 1) with (L + 1) by lia.
+    pose proof (len_bin_le (Z.lnot v) L ltac:(lia)) as [HL _]. destruct (HL ltac:(lia)) as [H1 H2].
+    replace (L + 1 - 1) with L by lia.
+    assert (Hr : - 2 ^ L <= v < 0) by (unfold Z.lnot in H2; lia).
+    assert (Hs : Z.shiftr v L = -1) by (apply shiftr_m1; lia).
+    rewrite Hs. cbn [Z.eqb negb Pos.eqb]. rewrite land_mask by lia.
+    exists (L + 1). split; [reflexivity|]. split.
+    + unfold representable. replace (L + 1 - 1) with L by lia. split; [lia|]. assert (0 < 2 ^ L) by (apply pow2_pos; lia). lia.
+    + intros w' [Hw' [Hlo _]].
+      assert (len_bin (Z.lnot v) <= w' - 1).
+      { destruct (Z.eq_dec w' 1) as [->|Hne]; [simpl in Hlo; lia|].
+        apply len_bin_le; [lia|]. split; [lia|]. unfold Z.lnot. lia. }
+      fold L in H. lia.
+Qed.
+
+Lemma convert_int_none_neg_unsigned v : v < 0 -> convert_int v None false = Err 2.
+Proof. intros Hv. unfold convert_int. replace (v >=? 0) with false by lia. reflexivity. Qed.
+
+(* ---------- _convert_bool ---------- *)
+Lemma convert_bool_rules b w s :
+  convert_bool b w s =
+  if s then Err 1
+  else match w with
+       | None => Ok (b2z b, 1)
+       | Some w' => if w' =? 1 then Ok (b2z b, 1) else Err 2
+       end.
+Proof.
+  unfold convert_bool. destruct s; [reflexivity|]. destruct w as [w'|]; [|reflexivity].
+  destruct (w' =? 1) eqn:E; cbn [negb]; [|reflexivity]. assert (w' = 1) by lia. subst. reflexivity.
+Qed.
+
+(* ---------- Const post-checks never fire on an accepted integer/bool ---------- *)
+Lemma const_postchecks_int v w s n w' :
+  convert_int v w s = Ok (n, w') -> const_postchecks n w' = None.
+Proof.
+  intros H. assert (Hr : 0 <= w' /\ 0 <= n < 2 ^ w').
+  { destruct w as [w0|].
+    - rewrite convert_int_some in H. destruct (representableb v w0 s) eqn:E; [|discriminate].
+      apply representableb_spec in E. destruct E as [Hw _]. inversion H; subst.
+      split; [lia|]. apply Z.mod_pos_bound. apply pow2_pos. lia.
+    - destruct (Z.lt_ge_cases v 0) as [Hv|Hv].
+      + destruct s.
+        * destruct (convert_int_none_neg_signed v Hv) as [w1 [E [[Hw _] _]]]. rewrite E in H. inversion H; subst.
+          split; [lia|]. apply Z.mod_pos_bound. apply pow2_pos. lia.
+        * rewrite convert_int_none_neg_unsigned in H by assumption. discriminate.
+      + destruct (convert_int_none_nonneg v s Hv) as [w1 [E [Em [[Hw _] _]]]]. rewrite E in H. inversion H; subst.
+        split; [lia|]. rewrite Em. apply Z.mod_pos_bound. apply pow2_pos. lia. }
+  destruct Hr as [Hw Hn]. unfold const_postchecks.
+  replace (n <? 0) with false by lia.
+  assert (Z.shiftr n w' = 0) by (apply shiftr_0; assumption). rewrite H0. reflexivity.
+Qed.
+
+Lemma const_postchecks_bool b w s n w' :
+  convert_bool b w s = Ok (n, w') -> const_postchecks n w' = None.
+Proof.
+  rewrite convert_bool_rules. destruct s; [discriminate|].
+  destruct w as [w0|]; [destruct (w0 =? 1)|]; try discriminate; intros H; inversion H; subst; destruct b; reflexivity.
+Qed.
+
+(* ---------- val_to_signed_integer ---------- *)
+Lemma val_to_signed_integer_eq u w : 1 <= w ->
+  val_to_signed_integer u w = Ok (u mod 2 ^ (w - 1) - 2 ^ (w - 1) * b2z (Z.testbit u (w - 1))).
+Proof.
+  intros Hw. unfold val_to_signed_integer. cbn [orb]. replace (w <? 1) with false by lia.
+  rewrite Z.shiftl_1_l. rewrite land_mask_pow by lia. f_equal. f_equal.
+  (* u land 2^(w-1) *)
+  apply Z.bits_inj'. intros i Hi. rewrite Z.land_spec. rewrite Z.pow2_bits_eqb by lia.
+  destruct (Z.testbit u (w - 1)) eqn:Eb; cbn [b2z].
+  - rewrite Z.mul_1_r. rewrite Z.pow2_bits_eqb by lia.
+    destruct (Z.eqb_spec (w - 1) i) as [<-|Hne]; [rewrite Eb; reflexivity|apply andb_false_r].
+  - rewrite Z.mul_0_r, Z.bits_0.
+    destruct (Z.eqb_spec (w - 1) i) as [<-|Hne]; [rewrite Eb; reflexivity|apply andb_false_r].
+Qed.
+
+Lemma testbit_top_mod v w : 1 <= w -> - 2 ^ (w - 1) <= v < 2 ^ (w - 1) ->
+  Z.testbit (v mod 2 ^ w) (w - 1) = (v <? 0).
+Proof.
+  intros Hw Hr. assert (0 < 2 ^ (w - 1)) by (apply pow2_pos; lia).
+  pose proof (pow2_half w Hw) as Hh.
+  rewrite Z.testbit_eqb by lia.
+  destruct (v <? 0) eqn:E.
+  - assert (Em : v mod 2 ^ w = v + 2 ^ w).
+    { symmetry. apply (Z.mod_unique v (2 ^ w) (-1)); lia. }
+    rewrite Em. assert ((v + 2 ^ w) / 2 ^ (w - 1) = 1) as ->.
+    { symmetry. apply (Z.div_unique _ _ 1 (v + 2 ^ (w - 1))); lia. }
+    reflexivity.
+  - rewrite (Z.mod_small v (2 ^ w)) by lia. rewrite Z.div_small by lia. reflexivity.
+Qed.
+
+(* val_to_signed_integer inverts the signed encoding *)
+Lemma val_to_signed_inverts v w : representable v w true ->
+  val_to_signed_integer (v mod 2 ^ w) w = Ok v.
+Proof.
+  intros [Hw Hr]. rewrite val_to_signed_integer_eq by assumption.
+  rewrite testbit_top_mod by assumption.
+  assert (0 < 2 ^ (w - 1)) by (apply pow2_pos; lia).
+  pose proof (pow2_half w Hw) as Hh. f_equal.
+  assert (Hmm : (v mod 2 ^ w) mod 2 ^ (w - 1) = v mod 2 ^ (w - 1)).
+  { symmetry. apply Znumtheory.Zmod_div_mod; [lia|lia|exists 2; lia]. }
+  rewrite Hmm. destruct (v <? 0) eqn:E; cbn [b2z].
+  - assert (v mod 2 ^ (w - 1) = v + 2 ^ (w - 1)).
+    { symmetry. apply (Z.mod_unique v _ (-1)); lia. }
+    lia.
+  - rewrite Z.mod_small by lia. lia.
+Qed.
+
+(* and reads an unsigned pattern as its signed value *)
+Lemma val_to_signed_value u w : 1 <= w -> 0 <= u < 2 ^ w ->
+  val_to_signed_integer u w = Ok (signed_value u w).
+Proof.
+  intros Hw Hu. unfold signed_value.
+  assert (0 < 2 ^ (w - 1)) by (apply pow2_pos; lia).
+  pose proof (pow2_half w Hw) as Hh.
+  destruct (u <? 2 ^ (w - 1)) eqn:E.
+  - replace u with (u mod 2 ^ w) at 1 by (apply Z.mod_small; lia).
+    apply val_to_signed_inverts. split; [assumption|]. lia.
+  - replace u with ((u - 2 ^ w) mod 2 ^ w) at 1.
+    + apply val_to_signed_inverts. split; [assumption|]. lia.
+    + symmetry. apply (Z.mod_unique _ _ (-1)); lia.
+Qed.
+
+(* ---------- libutils.twos_comp_repr / rev_twos_comp_repr ---------- *)
+Lemma bit_length_nonneg x : 0 <= bit_length x.
+Proof. unfold bit_length. destruct (x =? 0); [lia|]. pose proof (Z.log2_nonneg (Z.abs x)). lia. Qed.
+
+Lemma twos_comp_repr_eq v w :
+  twos_comp_repr v w =
+  if (1 <=? w) && (Z.abs v <? 2 ^ (w - 1)) then Ok (v mod 2 ^ w) else Err 1.
+Proof.
+  unfold twos_comp_repr.
+  pose proof (bit_length_nonneg (Z.abs v)) as Hb.
+  destruct (Z.lt_ge_cases w 1) as [Hw|Hw].
+  - replace (w <? bit_length (Z.abs v) + 1) with true by lia. replace (1 <=? w) with false by lia. reflexivity.
+  - replace (1 <=? w) with true by lia. cbn [andb].
+    pose proof (bit_length_le (Z.abs v) (w - 1) ltac:(lia) ltac:(lia)) as HL.
+    assert (Hp : 0 < 2 ^ (w - 1)) by (apply pow2_pos; lia). pose proof (pow2_half w Hw) as Hh.
+    destruct (w <? bit_length (Z.abs v) + 1) eqn:E.
+    + replace (Z.abs v <? 2 ^ (w - 1)) with false by lia. reflexivity.
+    + assert (Z.abs v < 2 ^ (w - 1)) by (apply HL; lia).
+      replace (Z.abs v <? 2 ^ (w - 1)) with true by lia.
+      destruct (v >=? 0) eqn:Ev.
+      * rewrite Z.mod_small by lia. reflexivity.
+      * f_equal. rewrite land_mask_pow by lia. unfold Z.lnot.
+        assert (Hm : Z.pred (- Z.abs v) mod 2 ^ w = 2 ^ w - Z.abs v - 1).
+        { symmetry. apply (Z.mod_unique _ _ (-1)); lia. }
+        rewrite Hm. apply (Z.mod_unique _ _ (-1)); lia.
+Qed.
+
+Lemma rev_twos_comp_repr_eq r w : 1 <= w -> 0 <= r ->
+  rev_twos_comp_repr r w =
+  if (r <? 2 ^ w) && negb (r =? 2 ^ (w - 1)) then Ok (signed_value r w) else Err 1.
+Proof.
+  intros Hw Hr. unfold rev_twos_comp_repr, signed_value.
+  pose proof (bit_length_le r w Hr ltac:(lia)) as HL.
+  pose proof (bit_length_le r (w - 1) Hr ltac:(lia)) as HL1.
+  assert (Hp : 0 < 2 ^ (w - 1)) by (apply pow2_pos; lia). pose proof (pow2_half w Hw) as Hh.
+  destruct (w <? bit_length r) eqn:E.
+  - replace (r <? 2 ^ w) with false by lia. reflexivity.
+  - assert (r < 2 ^ w) by (apply HL; lia). replace (r <? 2 ^ w) with true by lia. cbn [orb andb].
+    destruct (r =? 2 ^ (w - 1)) eqn:E2; cbn [negb]; [reflexivity|].
+    destruct (w =? bit_length r) eqn:E3.
+    + assert (~ r < 2 ^ (w - 1)) by (intro Hlt; apply HL1 in Hlt; lia).
+      replace (r <? 2 ^ (w - 1)) with false by lia. f_equal.
+      rewrite land_mask_pow by lia. unfold Z.lnot.
+      assert (Hm : Z.pred (- r) mod 2 ^ w = 2 ^ w - r - 1).
+      { symmetry. apply (Z.mod_unique _ _ (-1)); lia. }
+      rewrite Hm. lia.
+    + assert (r < 2 ^ (w - 1)) by (apply HL1; lia).
+      replace (r <? 2 ^ (w - 1)) with true by lia. reflexivity.
+Qed.
+
+Lemma twos_then_rev v w r : twos_comp_repr v w = Ok r -> rev_twos_comp_repr r w = Ok v.
+Proof.
+  rewrite twos_comp_repr_eq. destruct (1 <=? w) eqn:Ew; [|discriminate]. cbn [andb].
+  destruct (Z.abs v <? 2 ^ (w - 1)) eqn:Ea; [|discriminate]. intros H. inversion H; subst r. clear H.
+  assert (Hw : 1 <= w) by lia.
+  assert (Hp : 0 < 2 ^ (w - 1)) by (apply pow2_pos; lia). pose proof (pow2_half w Hw) as Hh.
+  assert (H0 : 0 <= v mod 2 ^ w < 2 ^ w) by (apply Z.mod_pos_bound; lia).
+  rewrite rev_twos_comp_repr_eq by lia. unfold signed_value.
+  destruct (Z.lt_ge_cases v 0) as [Hv|Hv].
+  - assert (Em : v mod 2 ^ w = v + 2 ^ w) by (symmetry; apply (Z.mod_unique _ _ (-1)); lia).
+    rewrite Em. replace (v + 2 ^ w <? 2 ^ w) with true by lia.
+    replace (v + 2 ^ w =? 2 ^ (w - 1)) with false by lia.
+    replace (v + 2 ^ w <? 2 ^ (w - 1)) with false by lia. cbn [andb negb]. f_equal. lia.
+  - rewrite Z.mod_small by lia. replace (v <? 2 ^ w) with true by lia.
+    replace (v =? 2 ^ (w - 1)) with false by lia. replace (v <? 2 ^ (w - 1)) with true by lia. reflexivity.
+Qed.
+
+Lemma rev_then_twos r w v : 1 <= w -> 0 <= r ->
+  rev_twos_comp_repr r w = Ok v -> twos_comp_repr v w = Ok r.
+Proof.
+  intros Hw Hr. rewrite rev_twos_comp_repr_eq by assumption. unfold signed_value.
+  assert (Hp : 0 < 2 ^ (w - 1)) by (apply pow2_pos; lia). pose proof (pow2_half w Hw) as Hh.
+  destruct (r <? 2 ^ w) eqn:E1; [|discriminate]. destruct (r =? 2 ^ (w - 1)) eqn:E2; [discriminate|]. cbn [andb negb].
+  rewrite twos_comp_repr_eq. replace (1 <=? w) with true by lia. cbn [andb].
+  destruct (r <? 2 ^ (w - 1)) eqn:E3; intros H; inversion H; subst v; clear H.
+  - replace (Z.abs r <? 2 ^ (w - 1)) with true by lia. rewrite Z.mod_small by lia. reflexivity.
+  - replace (Z.abs (r - 2 ^ w) <? 2 ^ (w - 1)) with true by lia. f_equal.
+    symmetry. apply (Z.mod_unique _ _ (-1)); lia.
+Qed.
+
+(* ---------- numeric tail of _convert_verilog_str vs _convert_int ---------- *)
+Definition passed_ok (passed : option Z) (w : Z) : Prop := passed = None \/ passed = Some w.
+
+Lemma verilog_tail_agrees neg num w passed :
+  0 <= num -> 1 <= w -> passed_ok passed w ->
+  ~ (neg = true /\ num = 2 ^ (w - 1)) ->
+  res_opt (verilog_tail false neg num w passed)
+  = res_opt (convert_int (if neg then - num else num) (Some w) false).
+Proof.
+  intros Hn Hw Hp Hguard. rewrite convert_int_some. unfold verilog_tail, representableb.
+  replace (1 <=? w) with true by lia. cbn [andb].
+  assert (Hpass : (match passed with None => false | Some z__ => negb (z__ =? 0) end)
+                  && negb (match passed with None => false | Some z__ => z__ =? w end) = false).
+  { destruct Hp as [->| ->]; [reflexivity|]. rewrite Z.eqb_refl. apply andb_false_r. }
+  rewrite Hpass.
+  assert (Hpw : 0 < 2 ^ (w - 1)) by (apply pow2_pos; lia). pose proof (pow2_half w Hw) as Hh.
+  pose proof (shiftr_0 num (w - 1) ltac:(lia)) as S1.
+  pose proof (shiftr_0 num w ltac:(lia)) as S0.
+  destruct neg; cbn [andb].
+  - destruct (num =? 0) eqn:E0; cbn [negb].
+    + assert (num = 0) by lia. subst num. cbn [Z.opp].
+      rewrite Z.shiftr_0_l. cbn [Z.eqb negb]. replace (0 <=? 0) with true by reflexivity.
+      replace (0 <? 2 ^ w) with true by lia. cbn [res_opt]. rewrite Z.mod_0_l by lia. reflexivity.
+    + replace (0 <=? - num) with false by lia.
+      destruct (Z.shiftr num (w - 1) =? 0) eqn:E1; cbn [negb].
+      * assert (0 <= num < 2 ^ (w - 1)) by (apply S1; lia).
+        rewrite Z.shiftl_1_l.
+        assert (Z.shiftr (2 ^ w - num) w = 0) as -> by (apply shiftr_0; lia).
+        cbn [Z.eqb negb]. replace (- 2 ^ (w - 1) <=? - num) with true by lia. cbn [res_opt].
+        f_equal. f_equal. apply (Z.mod_unique _ _ (-1)); lia.
+      * assert (~ (0 <= num < 2 ^ (w - 1))) by (intro Hx; apply S1 in Hx; lia).
+        assert (num <> 2 ^ (w - 1)) by (intro; apply Hguard; split; [reflexivity|assumption]).
+        replace (- 2 ^ (w - 1) <=? - num) with false by lia. reflexivity.
+  - replace (0 <=? num) with true by lia.
+    destruct (Z.shiftr num w =? 0) eqn:E1; cbn [negb].
+    + assert (0 <= num < 2 ^ w) by (apply S0; lia). replace (num <? 2 ^ w) with true by lia.
+      cbn [res_opt]. rewrite Z.mod_small by lia. reflexivity.
+    + assert (~ (0 <= num < 2 ^ w)) by (intro Hx; apply S0 in Hx; lia).
+      replace (num <? 2 ^ w) with false by lia. reflexivity.
+Qed.
+
+Lemma verilog_tail_width_mismatch neg num w p :
+  p <> 0 -> p <> w -> is_ok (verilog_tail false neg num w (Some p)) = false.
+Proof.
+  intros H0 Hw. unfold verilog_tail.
+  replace (negb (p =? 0)) with true by lia. replace (p =? w) with false by lia. cbn [andb negb].
+  destruct (neg && negb (num =? 0)); [destruct (negb (Z.shiftr num (w - 1) =? 0))|]; reflexivity.
+Qed.
+
+Lemma verilog_tail_signed neg num w passed : verilog_tail true neg num w passed = Err 1.
+Proof. reflexivity. Qed.
